@@ -183,8 +183,9 @@ def run_check(ctx):
 # -------------------------------------------------------------------------------------------------
 def judge(ctx, table, r, out, whole, base):
     """compare one loaded file with what the spec demands"""
-    what = "%s file (%s, format %d.%d, %d records, preloaded: %s%s)" % (
-        "generated" if r["kind"] != "ext" else "real", r["kind"], r["major"], r["minor"], r["nrec"], r["pre"],
+    what = "%s file of %d bytes (%s, format %d.%d, %d records, preloaded: %s%s)" % (
+        "generated" if r["kind"] != "ext" else "real", len(Q.tobytes(r.get("bytes") or r["file"])),
+        r["kind"], r["major"], r["minor"], r["nrec"], r["pre"],
         ", cut at byte %d" % r["cut"] if r["cut"] != -1 else "")
     payload = dict(file=Q.tobytes(r.get("bytes") or r["file"]).decode("latin-1"), request=r["kind"], preloaded=r["pre"],
                    cut=r["cut"], spec_error_flag=r["err"], stderr=out["stderr"])
